@@ -837,6 +837,31 @@ GENERIC = {
         _R([2], ["mask", "nothere"], layout="d1", slash=False),
     ])],
 }
+# minimal histories, one per suspected root cause, run before the rich ones
+# so that a replay file of a known cause is short
+MINIMAL = {
+    "subset_perm": [
+        dict(focus=None, ops=[_S([0, 1, 2], [2], ["rho"]),
+                              _R([2], ["rho"])]),
+        dict(focus=None, ops=[_S([1, 0], [1, 0], ["rho"]),
+                              _R([0, 1], ["rho"])]),
+    ],
+    "none_entries": [
+        dict(focus="none", ops=[_S([0, 1], [0, 1], ["rho"],
+                                   vars=[["rho", 2]]),
+                                _R([0, 1], ["rho"])]),
+    ],
+    "args_paths": [
+        dict(focus="args", ops=[_S([0], [0], ["rho"], vars_arg=["rho"]),
+                                _R([0], ["rho"])]),
+        dict(focus="args", ops=[_S([0], [0], ["rho"], slash=False),
+                                _R([0], ["rho"], slash=False)]),
+        dict(focus="args", ops=[_S([0], [0], ["rho"]),
+                                _R([0], ["rho", "t"])]),
+        dict(focus="args", ops=[_S([0], [0], ["rho"]),
+                                _R([0, 1], ["rho", "it"])]),
+    ],
+}
 GENERIC["history"] = [dict(focus=None, ops=[
     op for name in ("subset_perm", "none_entries", "args_paths")
     for op in GENERIC[name][0]["ops"]]), dict(focus=None, ops=[
@@ -848,6 +873,10 @@ GENERIC["history"] = [dict(focus=None, ops=[
         _R([4, 40], ["rho", "betaup3", "it", "t"], slash=False,
            layout="d1"),
     ])]
+GENERIC["history"] = ([dict(c, focus=None) for n in MINIMAL
+                       for c in MINIMAL[n]] + GENERIC["history"])
+for _n in MINIMAL:
+    GENERIC[_n] = MINIMAL[_n] + GENERIC[_n]
 
 
 # ---------------------------------------------------------------------------
@@ -903,7 +932,10 @@ def selftest():
                 run_history(case, n, impl=RefImpl(bug), focus=FOCUS[name])
                 found |= set(n.failed)
                 nt = nt or n.nontrivial
-                if bug is None and not n.nontrivial:
+                if bug is None and not n.nontrivial and not (
+                        name == "history" and len(case["ops"]) == 2):
+                    # (the two-operation minimal histories of the focused
+                    # sub-checks are trivial under the plain rule)
                     raise HarnessError(
                         f"C13 self-test: generic case of {name} is trivial")
         if bug is None and found:
